@@ -194,7 +194,27 @@ def restrict(secs, keep):
 
 
 # ----------------------------------------------------------------------------------------------- running
-def run_sharded(ctx, exe, lines, shards=12, timeout=600):
+def run_chunk(ctx, exe, chunk, timeout, depth=0):
+    """Run one chunk; if the process dies or times out (fewer answers than lines; output is block-buffered, so the
+    culprit is unknown) bisect until the offending single line is isolated.  A single line that times out is retried
+    once with a longer limit and then reported as TIMEOUT (inconclusive, never a violation)."""
+    rc, out, err = ctx.run_lines([exe], chunk, timeout=timeout)
+    if len(out) == len(chunk):
+        return out
+    if len(chunk) == 1:
+        if rc == 124:
+            rc, out, err = ctx.run_lines([exe], chunk, timeout=timeout * 3)
+            if len(out) == 1:
+                return out
+            if rc == 124:
+                return ["TIMEOUT"]
+        last = err.strip().splitlines()
+        return ["CRASH rc=%s %s" % (rc, " / ".join(last[:3])[:300] if last else "")]
+    mid = len(chunk) // 2
+    return run_chunk(ctx, exe, chunk[:mid], timeout, depth + 1) + run_chunk(ctx, exe, chunk[mid:], timeout, depth + 1)
+
+
+def run_sharded(ctx, exe, lines, shards=12, timeout=900):
     """Run `exe` over `lines` split into contiguous shards in parallel; returns output lines (same order)."""
     if not lines:
         return []
@@ -204,10 +224,7 @@ def run_sharded(ctx, exe, lines, shards=12, timeout=600):
     res = [None] * len(chunks)
 
     def work(i):
-        rc, out, err = ctx.run_lines([exe], chunks[i], timeout=timeout)
-        if len(out) != len(chunks[i]):
-            out = out + ["CRASH rc=%s %s" % (rc, err.strip().splitlines()[-1][:200] if err.strip() else "")] * (len(chunks[i]) - len(out))
-        res[i] = out
+        res[i] = run_chunk(ctx, exe, chunks[i], timeout)
     th = [threading.Thread(target=work, args=(i,)) for i in range(len(chunks))]
     for t in th:
         t.start()
@@ -240,6 +257,8 @@ def independent_checks(line, impl):
     """Property-level checks that need no model: queue must be empty after every outermost return;
     the tracker log per promise must be a prefix of [reject, handle]; no crash."""
     probs = []
+    if impl == "TIMEOUT":
+        return []
     if impl.startswith(("PANIC", "CRASH", "SETUP-ERROR", "PARSE-ERROR")):
         return ["harness:" + impl.split(" ")[0]]
     seen = {}
@@ -318,9 +337,9 @@ def load_corpus():
 def shrink(ctx, harness, model, secs, want_field):
     def fails(keep):
         line = render(restrict(secs, keep))
-        rc1, o1, _ = ctx.run_lines([harness], [line], timeout=30)
+        rc1, o1, _ = ctx.run_lines([harness], [line], timeout=120)
         if model:
-            rc2, o2, _ = ctx.run_lines([model], [line], timeout=30)
+            rc2, o2, _ = ctx.run_lines([model], [line], timeout=120)
             if not o1 or not o2 or o2[0] in ("PARSE-ERROR", "OOF"):
                 return False
             return o1[0] != o2[0]
@@ -407,7 +426,9 @@ def main(ctx):
         if probs:
             indep.append((i, probs))
         if mod is not None:
-            if mod[i] in ("PARSE-ERROR", "OOF") or mod[i].startswith("CRASH"):
+            if impl[i] == "TIMEOUT" or mod[i] == "TIMEOUT":
+                ctx.stats["timeouts_inconclusive"] = ctx.stats.get("timeouts_inconclusive", 0) + 1
+            elif mod[i] in ("PARSE-ERROR", "OOF") or mod[i].startswith("CRASH"):
                 bad_model += 1
             elif mod[i] != impl[i]:
                 mism.append(i)
@@ -444,10 +465,10 @@ def main(ctx):
         if secs is not None:
             small = shrink(ctx, harness, model, secs, field)
             line = render(small)
-        rc1, o1, _ = ctx.run_lines([harness], [line], timeout=30)
+        rc1, o1, _ = ctx.run_lines([harness], [line], timeout=120)
         o2 = [None]
         if model:
-            _, o2, _ = ctx.run_lines([model], [line], timeout=30)
+            _, o2, _ = ctx.run_lines([model], [line], timeout=120)
         obs = o1[0] if o1 else "CRASH"
         exp = o2[0] if o2 else None
         field2 = first_diff_field(obs, exp) if exp else field
